@@ -3,7 +3,7 @@
 Every managed thread runs one API call; at each yield point (vtlengine._verif.yield_point) it parks and the controller
 decides which parked thread continues, so exactly one managed thread runs at a time and an execution is a pure function
 of the sequence of choices.  The parser lock is modelled by the controller (a thread parked at parse.enter is enabled
-only while no other thread is between parse.enter and parse.exit), so no managed thread ever blocks on a real lock."""
+only while no other thread OWNS the real lock - observed at every park), so no managed thread ever blocks on a real lock."""
 import threading
 import traceback
 
@@ -19,8 +19,8 @@ class Controller:
         self.point = {}        # tid -> point name where parked
         self.info = {}
         self.grant = {}        # tid -> bool
-        self.lock_holder = None
-        self.depth = 0
+        self.owns = {}
+        self.real_lock = None
         self.events = []       # (tid, point, snapshot)
         self.results = {}
         self.snapshot = snapshot
@@ -34,15 +34,9 @@ class Controller:
         if tid is None:
             return
         with self.cv:
-            # lock bookkeeping at park time: *.exit points are reached after one level of the (re-entrant) parser lock was
-            # released; any other point outside the locked region means the region was left by an exception
-            if self.lock_holder == tid:
-                if point in ('parse.exit', 'parsec.exit'):
-                    self.depth -= 1
-                elif point not in ('parse.parsed', 'parse.enter'):
-                    self.depth = 0
-                if self.depth <= 0:
-                    self.lock_holder, self.depth = None, 0
+            # does this thread really own the (re-entrant) parser lock now?  Observed, not assumed: a thread parked at an
+            # *.enter point is enabled iff no OTHER thread owns the real lock, so a removed or narrowed lock is explored too
+            self.owns[tid] = bool(self.real_lock._is_owned()) if self.real_lock is not None else False
             # the thread's own view of the shared state after its previous step (taken here, in the engine thread)
             if self.snapshot and self.last_event.get(tid) is not None:
                 self.last_event[tid]['after'] = self.snapshot()
@@ -66,8 +60,7 @@ class Controller:
             if self.snapshot and self.last_event.get(tid) is not None:
                 self.last_event[tid]['after'] = self.snapshot()
             self.state[tid] = 'done'
-            if self.lock_holder == tid:
-                self.lock_holder, self.depth = None, 0
+            self.owns[tid] = False
             self.cv.notify_all()
 
     # ---- controller
@@ -76,7 +69,7 @@ class Controller:
         for tid, st in self.state.items():
             if st != 'parked':
                 continue
-            if self.point[tid] in ('parse.enter', 'parsec.enter') and self.lock_holder not in (None, tid):
+            if self.point[tid] in ('parse.enter', 'parsec.enter') and any(o for t, o in self.owns.items() if t != tid):
                 continue
             out.append(tid)
         return sorted(out)
@@ -84,6 +77,8 @@ class Controller:
     def run(self, calls, choose, max_steps=100000):
         """calls: {tid: callable}; choose(step, enabled [(tid, point)], last_tid) -> tid"""
         import vtlengine._verif as hooks
+        from vtlengine.AST.Grammar._cpp_parser import parser_lock
+        self.real_lock = parser_lock
         hooks.scheduler = self.on_yield
         threads = {}
         try:
@@ -111,10 +106,6 @@ class Controller:
                     if tid not in en:
                         tid = en[0]
                     pt = self.point[tid]
-                    # the thread granted at an *.enter point acquires (one more level of) the parser lock
-                    if pt in ('parse.enter', 'parsec.enter'):
-                        self.lock_holder = tid
-                        self.depth += 1
                     self.events.append({'t': tid, 'p': pt, 'i': self.info.get(tid) or {}, 'after': None})
                     self.last_event[tid] = self.events[-1]
                     self.state[tid] = 'running'
